@@ -175,6 +175,8 @@ class ImplStore:
         if op == "concat":
             coord = None if j.get("coord") is None else np.array([to_float(x) for x in j["coord"]])
             O[j["out"]] = dnp.concat([O[i] for i in j["objs"]], j["dim"], coord); return None
+        if op == "proc":
+            O[j["out"]] = self._proc(j["f"], O[j["obj"]], j["kw"]); return None
         if op == "set_attr":
             O[j["obj"]].attrs[j["key"]] = to_attr(j["value"]); return None
         if op == "set_dattr":
@@ -191,3 +193,57 @@ class ImplStore:
         if op == "reset":
             O.clear(); return None
         raise RuntimeError("harness: unknown op " + op)
+
+
+    # ------------------------------------------------------------------ processing functions
+    def _proc(self, f, d, kw):
+        if f == "integrate":
+            regs = kw.get("regions")
+            if regs is not None:
+                regs = [(to_float(a), to_float(b)) for a, b in regs]
+                if kw.get("bare_pair"):
+                    regs = regs[0]
+            return dnp.integrate(d, kw["dim"], regs)
+        if f == "cumulative_integrate":
+            return dnp.cumulative_integrate(d, kw["dim"])
+        if f == "left_shift":
+            return dnp.left_shift(d, kw["dim"], kw["n"])
+        if f == "reference":
+            return dnp.reference(d, kw["dim"], to_float(kw["old_ref"]), to_float(kw["new_ref"]))
+        if f == "normalize":
+            return dnp.normalize(d, dim=kw.get("dim"))
+        if f == "interp":
+            return dnp.interp(d, kw["dim"], np.array([to_float(x) for x in kw["new_coord"]]))
+        if f == "average":
+            return dnp.average(d, axis=kw["axis"])
+        if f == "calculate_enhancement":
+            return dnp.calculate_enhancement(d, off_spectrum_index=kw["idx"])
+        if f == "apodize":
+            return dnp.apodize(d, kw["dim"], kw["kind"], **{k: to_float(v) for k, v in kw.get("kwargs", {}).items()})
+        if f == "phase":
+            p0 = np.array([to_float(x) for x in kw["p0"]]) if isinstance(kw["p0"], list) else to_float(kw["p0"])
+            p1 = np.array([to_float(x) for x in kw["p1"]]) if isinstance(kw["p1"], list) else to_float(kw["p1"])
+            return dnp.phase(d, kw["dim"], p0, p1)
+        if f == "phase_cycle":
+            return dnp.phase_cycle(d, kw["dim"], list(kw["rp"]))
+        if f == "fourier_transform":
+            return dnp.fourier_transform(d, kw["dim"], kw["zff"], bool(kw.get("shift")), bool(kw.get("convert")))
+        if f == "inverse_fourier_transform":
+            return dnp.inverse_fourier_transform(d, kw["dim"], kw["zff"], bool(kw.get("shift")), bool(kw.get("convert")))
+        if f == "trace_local":
+            g = kw["func"]
+            if g == "smooth":
+                return dnp.smooth(d, kw["dim"], kw["window_length"], kw["polyorder"])
+            if g == "remove_background":
+                regs = kw.get("regions")
+                if regs is not None:
+                    regs = [(to_float(a), to_float(b)) for a, b in regs]
+                return dnp.remove_background(d, kw["dim"], kw["deg"], regs)
+            if g == "pseudo_modulation":
+                return dnp.pseudo_modulation(d, to_float(kw["amp"]), dim=kw["dim"])
+            if g == "ndalign":
+                return dnp.ndalign(d, kw["dim"])
+            if g == "autophase":
+                return dnp.autophase(d, kw["dim"])
+            raise RuntimeError("harness: unknown trace_local func " + g)
+        raise RuntimeError("harness: unknown proc " + f)
